@@ -59,6 +59,14 @@ Fixpoint has_prefix (p s : str) : bool :=
 Definition has_suffix (p s : str) : bool := has_prefix (rev p) (rev s).
 (* strings.TrimPrefix / bytes.TrimPrefix *)
 Definition trim_prefix (p s : str) : str := if has_prefix p s then ndrop (nlen p) s else s.
+(* `for bytes.HasPrefix(b, p) { b = b[len(p):] }` (p non-empty); the fuel is the string itself: every
+   iteration removes at least one byte *)
+Fixpoint strip_all_aux (p : str) (fuel b : str) : str :=
+  match fuel with
+  | [] => b
+  | _ :: f => if has_prefix p b then strip_all_aux p f (ndrop (nlen p) b) else b
+  end.
+Definition strip_all (p b : str) : str := strip_all_aux p b b.
 (* strings.Index: byte offset of the first occurrence *)
 Fixpoint index_of (p s : str) : option N :=
   if has_prefix p s then Some 0 else
